@@ -180,6 +180,8 @@ void op_hash(const Case& c, TaskCtx& t, Outcome& o) {
     f.buf(outs[l].data(), outs[l].size());
   o.digest = f.h;
   o.summary = "absorbed=" + std::to_string(absorbed) + " squeezed=" + std::to_string(squeezed);
+  if (G.solo_pass)
+    return; // the solo execution only supplies the result; oracle clauses are evaluated in the history run
   if (t.stats) {
     t.stats->hit("op.hash");
     t.stats->hit(x4 ? "c14.x4_schedules" : "c14.single_schedules");
@@ -345,6 +347,8 @@ void op_allocfail(const Case& c, TaskCtx& t, Outcome& o) {
   f.str(cls);
   o.digest = f.h;
   o.summary = target + " alloc " + std::to_string(k1) + (k2 >= 0 ? "+" + std::to_string(k2) : "") + "/" + std::to_string(ap.nalloc) + " -> " + cls;
+  if (G.solo_pass)
+    return; // the solo execution only supplies the result; oracle clauses are evaluated in the history run
   if (t.stats) {
     t.stats->hit("op.allocfail");
     t.stats->hit("fault.alloc_fail.fired", cls == "not_reached" ? 0 : 1);
